@@ -31,6 +31,13 @@ const IGN: &[&str] = &[
 
 fn join(tokens: &[String], c: &mut Choices) -> String {
     let mut out = String::new();
+    // ignored tokens may also open the file: a byte order mark first, then any ignored token
+    if c.bool(45) {
+        out.push('\u{feff}');
+    }
+    if c.bool(60) {
+        out.push_str(c.pick(IGN));
+    }
     for (i, t) in tokens.iter().enumerate() {
         if i > 0 {
             let simple = |t: &str| t.len() == 1 && "!$&():=@[]{}|".contains(t);
